@@ -178,6 +178,15 @@ func c04CallCase(ctx *Ctx, params []c04Param, vp *c04Param, tf, impl string, ref
 			fail("call-no-invention", "call:invented", fmt.Sprintf("the result carries mark %q that neither an argument nor the Impl result carries", mk), m.summary)
 		}
 	}
+	// When Call answers without consulting Impl (an unknown or dynamically typed
+	// argument short-circuits it) the marks of AllowMarked arguments are not put on
+	// the result.  Intended (function_test.go TestFunctionCallWithUnknownVals pins
+	// it) and outside the property, which exempts such arguments: tallied only.
+	if m.cls == "nil" && len(m.spy.implSaw) == 0 {
+		if _, ok := c04Subset(c04Keys(argMarks), c04TopSet(m.val)); !ok {
+			ctx.Tag("short-circuit-without-allowmarked-marks:spy")
+		}
+	}
 	// non-interference, for specs none of whose parameters handles marks itself
 	anyAllow := vp != nil && vp.m
 	for _, p := range params {
@@ -425,14 +434,16 @@ func c04NodeMarks(v cty.Value) []c04NodeMark {
 // interchangeable; a set on the way is returned itself (SetVal hoists).
 func c04Locate(r cty.Value, path cty.Path) (node cty.Value, found bool) {
 	cur := r
-	for _, st := range path {
+	for i, st := range path {
 		u, _ := cur.Unmark()
 		if u.IsNull() || !u.IsKnown() {
 			return cur, false
 		}
 		ty := u.Type()
 		if ty.IsSetType() {
-			return cur, true
+			// the set takes the marks of its members, but only of what survives in
+			// them: the rest of the path must exist in the element type
+			return cur, c04TypeHasPath(ty.ElementType(), path[i+1:])
 		}
 		var name string
 		var idx int64 = -1
@@ -470,6 +481,47 @@ func c04Locate(r cty.Value, path cty.Path) (node cty.Value, found bool) {
 		}
 	}
 	return cur, true
+}
+
+// c04TypeHasPath: do the steps name a position inside a value of type ty?
+// (member steps below a set, list or map always do; a placeholder stands for anything)
+func c04TypeHasPath(ty cty.Type, steps cty.Path) bool {
+	for _, st := range steps {
+		switch {
+		case ty == cty.DynamicPseudoType:
+			return true
+		case ty.IsListType() || ty.IsSetType() || ty.IsMapType():
+			ty = ty.ElementType()
+		case ty.IsTupleType():
+			is, ok := st.(cty.IndexStep)
+			if !ok || is.Key.Type() != cty.Number {
+				return false
+			}
+			i, _ := is.Key.AsBigFloat().Int64()
+			if i < 0 || int(i) >= ty.Length() {
+				return false
+			}
+			ty = ty.TupleElementType(int(i))
+		case ty.IsObjectType():
+			var name string
+			switch st := st.(type) {
+			case cty.GetAttrStep:
+				name = st.Name
+			case cty.IndexStep:
+				if st.Key.Type() != cty.String {
+					return false
+				}
+				name = st.Key.AsString()
+			}
+			if !ty.HasAttribute(name) {
+				return false
+			}
+			ty = ty.AttributeType(name)
+		default:
+			return false
+		}
+	}
+	return true
 }
 
 func c04ConvOut(v cty.Value, err error, panicked bool) string {
@@ -812,6 +864,21 @@ func c04StdCase(ctx *Ctx, name string, f function.Function, base []cty.Value) {
 	}
 	resMarks := c04DeepSet(rm)
 	top := c04TopSet(rm)
+	short := false // the protocol short-circuits: some argument is unknown (or dynamically typed) and its parameter does not allow that
+	for j, a := range clean {
+		p := vp
+		if j < len(params) {
+			p = &params[j]
+		}
+		if p != nil && ((!a.IsKnown() && !p.AllowUnknown) || (a.Type() == cty.DynamicPseudoType && !p.AllowDynamicType)) {
+			short = true
+		}
+	}
+	if short {
+		if _, ok := c04Subset(c04Keys(marks), top); !ok {
+			ctx.Tag("short-circuit-without-allowmarked-marks:" + name) // intended, see c04CallCase
+		}
+	}
 	for j, a := range args {
 		var p *function.Parameter
 		if j < len(params) {
